@@ -57,10 +57,10 @@ theorem ceilDivPow2_eq (len : Int) (n : Nat) (hl : 0 ≤ len) :
     simp only [this, decide_false, Bool.false_eq_true, if_false, Int.toNat_natCast, Int.one_mul]
     exact tdiv_eq_ediv (by omega)
 
-/-- aligned tile origin: the encoder's tile-local ceil split IS the canvas split -/
+/-- aligned tile origin: the OLD encoder's tile-local ceil split was the canvas split (why aligned tilings worked) -/
 theorem aligned_agree (len x0 : Int) (n : Nat) (hl : 0 ≤ len) (hal : x0 % 2 ^ n = 0) :
-    (resDims len x0 n).1 = encLowLen len n := by
-  unfold encLowLen
+    (resDims len x0 n).1 = encLowLenOld len n := by
+  unfold encLowLenOld
   rw [resDims_closed len x0 n hl, ceilDivPow2_eq len n hl]
   simp only []
   have hp : (0 : Int) < 2 ^ n := Int.pow_pos (by decide)
